@@ -111,6 +111,7 @@ class SimLoop(asyncio.SelectorEventLoop):
         self._spin_count = 0
         self._spin_activity = 0
         self.on_idle = None        # hook used by the threaded-mode scheduler
+        self.cap_hit = False
         self.tasks = []
         super().__init__(selector=_FakeSelector(self))
         self._clock_resolution = 1e-9
@@ -182,7 +183,7 @@ class SimLoop(asyncio.SelectorEventLoop):
     # --- stepping -------------------------------------------------------
     def _run_once(self):
         self.iterations += 1
-        if self.iterations > self.step_cap:
+        if self.iterations > self.step_cap or self.cap_hit:
             raise StepCap()
         self._spin_check()
         super()._run_once()
